@@ -55,6 +55,13 @@ ENGINES = {
         ("uint16_t", "u16"), ("int16_t", "i16"), ("uint32_t", "u32"), ("int32_t", "i32"), ("uint64_t", "u64"), ("int64_t", "i64")]] + [("e_mapped.cpp", {})]},
     "e_multidim": {"dir": "e_multidim", "units": [("inst.cpp", {"VF_D": d, "VF_T": t, "VF_ID": "d%s%s" % (d, i)}) for d in "234"
                                                  for t, i in [("uint32_t", "u32"), ("uint64_t", "u64")]] + [("e_multidim.cpp", {})]},
+    "e_dynamic": {"dir": "e_dynamic", "units": [
+        ("inst.cpp", {"VF_KEY": "uint32_t", "VF_KEYID": "u32", "VF_SET": "0"}),
+        ("inst.cpp", {"VF_KEY": "uint64_t", "VF_KEYID": "u64", "VF_SET": "1"}),
+        ("inst.cpp", {"VF_KEY": "int32_t", "VF_KEYID": "i32", "VF_SET": "2"}),
+        ("inst.cpp", {"VF_KEY": "int64_t", "VF_KEYID": "i64", "VF_SET": "3"}),
+        ("inst.cpp", {"VF_KEY": "uint16_t", "VF_KEYID": "u16", "VF_SET": "4"}),
+        ("e_dynamic.cpp", {})]},
     "e_variants": {"dir": "e_variants", "units": [
         ("inst.cpp", {"VF_KEY": "uint8_t", "VF_KEYID": "u8", "VF_KEYBITS": "8"}),
         ("inst.cpp", {"VF_KEY": "uint16_t", "VF_KEYID": "u16", "VF_KEYBITS": "16"}),
@@ -86,6 +93,12 @@ CHECKS = {
             "quick": {"shards": 8, "cases": 2000}, "thorough": {"shards": 16, "cases": 60000}},
     "C14": {"engine": "e_multidim",
             "quick": {"shards": 8, "cases": 2000}, "thorough": {"shards": 16, "cases": 60000}},
+    "C05": {"engine": "e_dynamic",
+            "quick": {"shards": 8, "cases": 1200}, "thorough": {"shards": 16, "cases": 30000}},
+    "C06": {"engine": "e_dynamic",
+            "quick": {"shards": 8, "cases": 1200}, "thorough": {"shards": 16, "cases": 30000}},
+    "C15": {"engine": "e_dynamic",
+            "quick": {"shards": 8, "cases": 1000}, "thorough": {"shards": 16, "cases": 20000}},
     "C07": {"engine": "e_static",
             "quick": {"shards": 8, "cases": 4000}, "thorough": {"shards": 16, "cases": 120000}},
 }
@@ -108,6 +121,8 @@ _STATIC_NOTE = ("trusted: std::lower_bound over the generated array as oracle; g
 _SEG_NOTE = ("trusted: 128-bit integer arithmetic of the oracle; ranks < 2^40; sessions with a segment longer than 3000 points or beyond the "
              "6*10^7 pair-operation budget are counted as unchecked_large, not judged; relies on the PGM_INDEX_VERIF SegSession hook and Access friend")
 _VAR_NOTE = ("trusted: std::lower_bound over the generated array; unsigned keys on the full width of the type, n <= 2*10^5, 1..20 threads")
+_DYN_NOTE = ("trusted: std::map as reference model; keys strictly below numeric max, values never the tombstone; base^(buffer_level+1) <= 2^21 "
+             "(the library reserves that many entries eagerly); universes <= 6000 keys, histories <= 420 ops (runs up to 5000 updates)")
 DESCR = {
     "C03": {"level": "generated-input search: every constraint point the builder committed to (captured by the hook) is located in exactly one emitted segment "
                      "and its residual against the reported line is checked exactly (integers) or in long double with a stated tolerance (floats)",
@@ -153,6 +168,16 @@ DESCR = {
                      "compared with multiset membership",
             "design_ref": "DESIGN.md section 6 C14", "note": "trusted: bit-loop Morton encoder / decoder of the oracle; n <= 6000 points per case",
             "technique": "property-based testing vs set-membership oracle"},
+    "C05": {"level": "stateful generated-input search: histories of bulk-load + insert_or_assign/erase (single and long runs that force cascading merges) are applied to "
+                     "the container and to std::map; find/count/lower_bound are compared after every update",
+            "design_ref": "DESIGN.md section 6 C05", "note": _DYN_NOTE, "technique": "model-based (stateful) property-based testing vs std::map"},
+    "C06": {"level": "stateful generated-input search: complete traversals, iteration from any key, range(lo,hi), size and empty are compared with std::map at generated "
+                     "points of generated update histories",
+            "design_ref": "DESIGN.md section 6 C06", "note": _DYN_NOTE, "technique": "model-based (stateful) property-based testing vs std::map"},
+    "C15": {"level": "stateful generated-input search: after every single update the private layout (levels, sizes, used_levels, per-level indexes) is read through the "
+                     "befriended accessor and checked against the LSM invariants; per-level indexes are compared byte-for-byte with a freshly built one",
+            "design_ref": "DESIGN.md section 6 C15", "note": _DYN_NOTE + "; relies on the PGM_INDEX_VERIF friend declaration in DynamicPGMIndex",
+            "technique": "stateful property-based testing with an invariant over every reachable state"},
     "C07": {"level": "generated-input search with the routing hook: per level the chosen segment must be the responsible one, within EpsRec+1 of the prediction, "
                      "found inside the 2*EpsRec+3 window; level sizes obey floor(m/(2*EpsRec+1))+c",
             "design_ref": "DESIGN.md section 6 C07", "note": _STATIC_NOTE + "; relies on the PGM_INDEX_VERIF route_event hook",
